@@ -958,6 +958,305 @@ def check_registers(rust: Any, dump: Dict[str, Any]) -> List[Item]:
 
 
 # --------------------------------------------------------------------------------------------------
+# B1b. the sub-register layout under generated write histories
+# --------------------------------------------------------------------------------------------------
+# subreg:* above writes ONE name into a fresh register file and reads the other.  A register file may keep the
+# aliases in slots of their own, though, and then the layout it implements depends on what was written before:
+# the *order* of alias and whole-register writes on one register file is an input, generated here for every
+# family (BA: A,B / I: IL,IH / F: FC,FZ).  After each history every name of the family is read back and the
+# copies are compared: the declared layout (Registers._SUBREG_INFO applied to the writes), the Python register
+# file, the Rust register file.
+
+SUBREG_FAMILIES = (("BA", ("A", "B")), ("I", ("IL", "IH")), ("F", ("FC", "FZ")))
+SUBREG_ORDER_CLASSES = ("alias-then-whole", "whole-then-alias", "interleaved")
+
+
+def gen_subreg_histories(base: str, subs: Sequence[str], order: str, seed: int, n: int) -> List[List[List[Any]]]:
+    st = Stream(seed, 0xC17B, jhash_int(base + ":" + order))
+    pmask = py_reg_mask(base)
+
+    def val(name: str) -> int:
+        m = pmask if name == base else 0xFF
+        k = st.below(4)
+        return 0 if k == 0 else (m if k == 1 else (st.u32() & m))
+
+    out: List[List[List[Any]]] = []
+    for _ in range(n):
+        h: List[List[Any]] = []
+        if order == "alias-then-whole":
+            for _k in range(1 + st.below(2)):
+                nm = st.choice(subs)
+                h.append([nm, val(nm)])
+            h.append([base, val(base)])
+            if st.chance(1, 3):
+                h.append([base, val(base)])
+        elif order == "whole-then-alias":
+            h.append([base, val(base)])
+            for _k in range(1 + st.below(2)):
+                nm = st.choice(subs)
+                h.append([nm, val(nm)])
+        else:
+            names = (base,) + tuple(subs)
+            for _k in range(3 + st.below(4)):
+                nm = st.choice(names)
+                h.append([nm, val(nm)])
+        out.append(h)
+    return out
+
+
+def _declared_history(base: str, subs: Sequence[str], hist: Sequence[Sequence[Any]]) -> Dict[str, int]:
+    """Registers._SUBREG_INFO applied to the writes (plus the rule both register files document in a comment:
+    writing IL clears IH)."""
+    from sc62015.pysc62015 import emulator as E
+
+    pmask = (1 << (8 * int(E.REGISTER_SIZE[E.RegisterName[base]]))) - 1
+    info = {sub: E.Registers._SUBREG_INFO[E.RegisterName[sub]] for sub in subs}
+    p = 0
+    for nm, v in hist:
+        if nm == base:
+            p = int(v) & pmask
+        else:
+            b, shift, mask = info[nm]
+            if nm == "IL":
+                p = int(v) & int(mask)
+            else:
+                p = (p & ~(int(mask) << int(shift)) & pmask) | ((int(v) & int(mask)) << int(shift))
+    out = {base: p}
+    for sub in subs:
+        b, shift, mask = info[sub]
+        out[sub] = (p >> int(shift)) & int(mask)
+    return out
+
+
+def _python_history(base: str, subs: Sequence[str], hist: Sequence[Sequence[Any]]) -> Dict[str, int]:
+    from sc62015.pysc62015.emulator import Registers, RegisterName
+
+    r = Registers()
+    for nm, v in hist:
+        r.set(RegisterName[nm], int(v))
+    return {n: int(r.get(RegisterName[n])) for n in (base,) + tuple(subs)}
+
+
+def check_subreg_histories(rust: Any, seed: int, tier: str, forced: Optional[Dict[str, Any]] = None) -> List[Item]:
+    items: List[Item] = []
+    n = 12 if tier == "quick" else 64
+    for base, subs in SUBREG_FAMILIES:
+        names = (base,) + tuple(subs)
+        for order in SUBREG_ORDER_CLASSES:
+            iid = f"subreg-order:{base}:{order}"
+            hists = gen_subreg_histories(base, subs, order, seed, n)
+            if forced is not None and forced.get("item") == iid and forced.get("histories"):
+                hists = [[[str(a), int(b)] for a, b in h] for h in forced["histories"]]
+            ops: List[List[Any]] = []
+            for h in hists:
+                ops.append(["new"])
+                ops += [["set", nm, v] for nm, v in h]
+                ops += [["get", nm] for nm in names]
+            resp = rust.call({"cmd": "c17.regscript", "ops": ops})
+            if not resp.get("ok"):
+                raise HarnessError(f"c17.regscript failed: {str(resp)[:200]}")
+            vals = [int(x) for x in resp["values"]]
+            nontrivial = 0
+            it = Item(iid, False, ["subreg-order", f"subreg-order:{order}"],
+                      {"family": list(names), "order": order, "histories": len(hists), "first": hists[0] if hists else None})
+            seen = set()
+            for k, h in enumerate(hists):
+                rs = {nm: vals[k * len(names) + j] for j, nm in enumerate(names)}
+                dec = _declared_history(base, subs, h)
+                py = _python_history(base, subs, h)
+                # non-trivial: the last whole-register write disagrees, in some alias field, with an alias write
+                # made before it (a stale alias slot would show), or an alias write changes the parent
+                stale = False
+                last_alias: Dict[str, int] = {}
+                for nm, v in h:
+                    if nm == base:
+                        stale = stale or any(_declared_history(base, subs, [[base, v]])[s_] != last_alias[s_] for s_ in last_alias)
+                    else:
+                        last_alias[nm] = _declared_history(base, subs, [[nm, v]])[nm]
+                if stale or (order != "alias-then-whole" and dec[base] != 0):
+                    nontrivial += 1
+                for nm in names:
+                    tmp = Item(iid, True, [])
+                    group_check(tmp, "subregister-layout",
+                                [(f"emulator.Registers._SUBREG_INFO (applied to the write history) [{nm}]", dec[nm]),
+                                 (f"python Registers (observed after a write history) [{nm}]", py[nm]),
+                                 (f"rust LlamaState (observed after a write history) [{nm}]", rs[nm])],
+                                topic=f"sub-register family {base}, {nm} read after a write history")
+                    for v in tmp.violations:
+                        fp = (v.subcheck, v.where, v.symptom)
+                        if fp in seen:
+                            continue
+                        seen.add(fp)
+                        it.violations.append(Violation(v.subcheck, v.where, v.symptom, {"item": iid, "histories": [h]},
+                                                       f"history {_hex([[a, b] for a, b in h])} -> {v.detail}"))
+            it.nontrivial = nontrivial > 0
+            it.labels.append(f"subreg-order:nontrivial-histories={'0' if nontrivial == 0 else '>=1'}")
+            it.sample["nontrivial_histories"] = nontrivial
+            items.append(it)
+    return items
+
+
+# The same dimension through executed instructions: flag-only writers (SC, RC, ALU A,n -- they write the aliases
+# FC / FZ) and whole-register writers (POPU F / POPS F from planted stack bytes) in generated orders, on both
+# cores.  What is read: F in the register file after the last step and the byte a trailing PUSHU F stores.
+# When the last F-affecting instruction is a whole-register write the suffix starting there is also run on a
+# fresh state of the same core: a whole-register write defines every alias, whatever was written before.
+
+_F_ALIAS_ATOMS = (("SC", 0x97, False), ("RC", 0x9F, False), ("ADD", 0x40, True), ("SUB", 0x48, True),
+                  ("CMP", 0x60, True), ("AND", 0x70, True), ("OR", 0x78, True), ("XOR", 0x68, True))
+_F_WHOLE_ATOMS = (("POPU", 0x3E, "U"), ("POPS", 0x5F, "S"))
+_F_PROG_PC = 0x1000
+_F_PROG_REGS = {"BA": 0x0000, "I": 0x0001, "X": 0x40000, "Y": 0x41000, "U": 0x50000, "S": 0x51000, "F": 0}
+
+
+def gen_flag_programs(order: str, seed: int, n: int, py_table: Dict[int, Any]) -> List[List[List[Any]]]:
+    """A program is a list of atoms [mnemonic, opcode, operand]; for whole-register writers the operand is the
+    byte planted on the stack, for ALU atoms the immediate."""
+    st = Stream(seed, 0xC17C, jhash_int(order))
+    alias = [a for a in _F_ALIAS_ATOMS if short_name(py_row(py_table[a[1]])["name"]).upper().startswith(a[0])]
+    whole = [a for a in _F_WHOLE_ATOMS if short_name(py_row(py_table[a[1]])["name"]).upper().startswith(a[0])]
+    if not alias or not whole:
+        return []
+
+    def alias_atom() -> List[Any]:
+        nm, op, has_imm = st.choice(alias)
+        return [nm, op, (st.byte() if has_imm else None)]
+
+    def whole_atom() -> List[Any]:
+        nm, op, _sp = st.choice(whole)
+        k = st.below(4)
+        v = st.below(4) if k == 0 else ((0xFC | st.below(4)) if k == 1 else (st.u32() & 0xFF))
+        return [nm, op, v]
+
+    out: List[List[List[Any]]] = []
+    for _ in range(n):
+        if order == "alias-then-whole":
+            prog = [alias_atom() for _k in range(1 + st.below(3))] + [whole_atom()]
+        elif order == "whole-then-alias":
+            prog = [whole_atom()] + [alias_atom() for _k in range(1 + st.below(3))]
+        else:
+            prog = [(whole_atom() if st.chance(1, 2) else alias_atom()) for _k in range(3 + st.below(4))]
+        out.append(prog)
+    return out
+
+
+def _flag_program_image(prog: Sequence[Sequence[Any]]) -> Tuple[bytes, Dict[int, int], int]:
+    """(code incl. the trailing PUSHU F, planted stack bytes, number of steps)."""
+    code = bytearray()
+    mem: Dict[int, int] = {}
+    sp = {"U": _F_PROG_REGS["U"], "S": _F_PROG_REGS["S"]}
+    for nm, op, arg in prog:
+        code.append(int(op))
+        w = [a for a in _F_WHOLE_ATOMS if a[1] == op]
+        if w:
+            mem[sp[w[0][2]]] = int(arg) & 0xFF
+            sp[w[0][2]] += 1
+        elif arg is not None:
+            code.append(int(arg) & 0xFF)
+    code.append(0x2E)  # PUSHU F
+    return bytes(code), mem, len(prog) + 1
+
+
+def _f_layout_bits() -> int:
+    """The bits of F the sub-register layout names (union of the alias fields of F in Registers._SUBREG_INFO).
+    Only these are observed on the instruction route: the Python lifter models F as the two flags (RegF), so the
+    upper six bits of F do not survive POPU F there while the Rust core keeps the byte -- instruction semantics
+    (C06), not layout."""
+    from sc62015.pysc62015 import emulator as E
+
+    m = 0
+    for sub, (b, shift, mask) in E.Registers._SUBREG_INFO.items():
+        if b is E.RegisterName.F:
+            m |= int(mask) << int(shift)
+    return m
+
+
+def _py_flag_run(code: bytes, mem: Dict[int, int], steps: int) -> Any:
+    from sc62015.pysc62015.emulator import Emulator, RegisterName
+
+    init = dict(mem)
+    for i, b in enumerate(code):
+        init[_F_PROG_PC + i] = b
+    rm = RawMem(init)
+    emu = Emulator(rm, reset_on_init=False)  # type: ignore[arg-type]
+    for k, v in _F_PROG_REGS.items():
+        emu.regs.set(RegisterName[k], v)
+    emu.regs.set(RegisterName.PC, _F_PROG_PC)
+    f_before_push = None
+    try:
+        for i in range(steps):
+            if i == steps - 1:
+                f_before_push = int(emu.regs.get(RegisterName.F))
+                rm.writes.clear()
+            emu.execute_instruction(int(emu.regs.get(RegisterName.PC)))
+    except BaseException as exc:  # noqa: BLE001
+        return f"error: {type(exc).__name__}"
+    lm = _f_layout_bits()
+    return [None if f_before_push is None else f_before_push & lm, int(emu.regs.get(RegisterName.FC)),
+            int(emu.regs.get(RegisterName.FZ)), [v & lm for _, v in rm.writes][:1]]
+
+
+def _rs_flag_run(rust: Any, code: bytes, mem: Dict[int, int], steps: int) -> Any:
+    pairs = [[a, v] for a, v in sorted(mem.items())] + [[_F_PROG_PC + i, b] for i, b in enumerate(code)]
+    r = dict(_F_PROG_REGS)
+    r["PC"] = _F_PROG_PC
+    resp = rust.call({"cmd": "cpu.run", "regs": r, "seed": 0, "mem": pairs, "steps": steps})
+    st = resp.get("steps") or []
+    if not resp.get("ok") or len(st) != steps or any("err" in x for x in st):
+        return "error: " + str(resp.get("error") or resp.get("panic") or [x.get("err") for x in st if "err" in x])[:80]
+    lm = _f_layout_bits()
+    f = int(st[-2]["regs"]["F"]) if steps >= 2 else None
+    fin = int(st[-1]["regs"]["F"])
+    # the cpu.run verb reports F only; FC / FZ are taken from the final F (PUSHU F does not write flags)
+    return [None if f is None else f & lm, fin & 1, (fin >> 1) & 1, [int(v) & lm for _, v in st[-1].get("writes", [])][:1]]
+
+
+def check_flag_programs(py_table: Dict[int, Any], rust: Any, seed: int, tier: str,
+                        forced: Optional[Dict[str, Any]] = None) -> List[Item]:
+    items: List[Item] = []
+    n = 10 if tier == "quick" else 48
+    whole_ops = {a[1] for a in _F_WHOLE_ATOMS}
+    for order in SUBREG_ORDER_CLASSES:
+        iid = f"subreg-order:F:executed:{order}"
+        progs = gen_flag_programs(order, seed, n, py_table)
+        if forced is not None and forced.get("item") == iid and forced.get("programs"):
+            progs = [[[str(a), int(b), (None if c is None else int(c))] for a, b, c in pr] for pr in forced["programs"]]
+        it = Item(iid, False, ["subreg-order", "subreg-order:executed", f"subreg-order:executed:{order}"],
+                  {"order": order, "programs": len(progs), "first": progs[0] if progs else None})
+        seen = set()
+        nontrivial = 0
+        for prog in progs:
+            code, mem, steps = _flag_program_image(prog)
+            srcs: List[Tuple[str, Any]] = [
+                (f"python core, F / FC / FZ / pushed F after executed writes", _py_flag_run(code, mem, steps)),
+                (f"rust core, F / FC / FZ / pushed F after executed writes", _rs_flag_run(rust, code, mem, steps))]
+            last_f = max((i for i, a in enumerate(prog)), default=-1)
+            if prog and prog[last_f][1] in whole_ops and last_f > 0:
+                # earlier whole-register writes consumed stack bytes: re-plant for the suffix
+                suffix = [prog[last_f]]
+                c2, m2, s2 = _flag_program_image(suffix)
+                srcs.append(("python core, the last whole-register write alone on a fresh state", _py_flag_run(c2, m2, s2)))
+                srcs.append(("rust core, the last whole-register write alone on a fresh state", _rs_flag_run(rust, c2, m2, s2)))
+            has_alias_before_whole = any(prog[i][1] not in whole_ops and any(prog[j][1] in whole_ops for j in range(i + 1, len(prog)))
+                                         for i in range(len(prog)))
+            if has_alias_before_whole or order != "alias-then-whole":
+                nontrivial += 1
+            tmp = Item(iid, True, [])
+            group_check(tmp, "subregister-layout", srcs, topic="F / FC / FZ after executed writes")
+            for v in tmp.violations:
+                fp = (v.subcheck, v.where, v.symptom)
+                if fp in seen:
+                    continue
+                seen.add(fp)
+                it.violations.append(Violation(v.subcheck, v.where, v.symptom, {"item": iid, "programs": [prog]},
+                                               f"program {_hex([list(a) for a in prog])} + PUSHU F -> {v.detail}"))
+        it.nontrivial = nontrivial > 0
+        it.sample["nontrivial_programs"] = nontrivial
+        items.append(it)
+    return items
+
+
+# --------------------------------------------------------------------------------------------------
 # B2. the serialised register table (registers.bin of the .pcsnap format)
 # --------------------------------------------------------------------------------------------------
 # The snapshot register layout (register name, byte width, *position*) exists once per language:
@@ -2628,6 +2927,8 @@ def collect_items(seed: int = 1, tier: str = "quick", forced: Optional[Dict[str,
     items += check_rel_sign(dict(OPCODES), rust)
     items += check_opcode_classes(dict(OPCODES), rust, dump)
     items += check_registers(rust, dump)
+    items += check_subreg_histories(rust, seed, tier, forced)
+    items += check_flag_programs(dict(OPCODES), rust, seed, tier, forced)
     items += check_snapshot_layout(rust, dump)
     items += check_trace_layout(rust)
     items += check_selector_codes(rust)
@@ -2688,6 +2989,20 @@ ASSUMPTIONS = [
     "file (cpu.regs.set -> cpu.snapshot_registers / cpu.regs.get): the collector's own storage masks (24 bits for "
     "the address registers) are not probed with synthetic snapshots.  Tracing-on routes are skipped silently when "
     "the tracer cannot be started; the trace files go to a temporary directory",
+    "sub-register layout under write histories: every name of a family is read back after generated histories of "
+    "alias and whole-register writes on ONE register file (register-file API of both languages, and for F also "
+    "executed SC / RC / ALU A,n / POPU F / POPS F programs ending in PUSHU F); the declared copy is "
+    "Registers._SUBREG_INFO applied to the writes, plus the rule both register files state in a comment (writing IL "
+    "clears IH).  On the instruction route only the bits of F that the layout names (FC, FZ) are observed: the Python "
+    "lifter models F as the two flags, so the upper six bits of a popped F differ between the cores (instruction "
+    "semantics, C06).  A whole-register write alone on a fresh state of the same core is a further copy",
+    "views, observed: init() runs over a recording stand-in for the Binary Ninja BinaryView API (add_auto_segment / "
+    "add_auto_section / read_int / define_* / add_function) placed *behind* the view class in the MRO, on a parent "
+    "file object offering length / len() / start / end / read / file, with the architecture registered in the mocks "
+    "and a stand-in standalone platform for the duration of the observation.  Segment names come from the section "
+    "registered with the segment.  Judged per generated file length: pairwise disjoint, inside the address space, "
+    "Internal RAM at the lifter's base, and the registered (name, start, length) equal to the declared SEGMENTS row "
+    "(file backing -- data offset / data length -- is not judged)",
     "key-port window of the CoreRuntime bus: an offset belongs to it when the byte loaded from it, or what a store "
     "leaves in memory / in a keyboard latch, depends on the keyboard being attached (twin run with rt.keyboard = "
     "None); the keyboard's latches are set through KeyboardMatrix::handle_write to values that differ from the "
@@ -2713,6 +3028,8 @@ _SAMPLE_IDS = ("opcode:42", "opcode:E3", "opcode:56", "len:F0", "reg-width:X", "
                "reg-index:1", "imem:BP", "imem-use:PY", "vector:interrupt", "vector:reset",
                "const:INTERNAL_MEMORY_START", "pre:37", "view:SC62015FullView:disjoint", "opcode:D6",
                "snap-slot:U", "snap-cross:py-to-rs", "regpair-index:mv:6", "ptr-index:7",
+               "subreg-order:F:alias-then-whole", "subreg-order:F:executed:alias-then-whole",
+               "view-init:SC62015RomView:longer-by-1", "view-init:SC62015RomView:much-longer",
                "opclass:conditional-jump", "opclass:call-level-up", "opclass:interrupt-return", "trace-subreg:FZ",
                "trace-subreg:B", "reg-set:20bit", "op-width:INC:S", "op-width:ADD:X", "op-width:MV:U", "imem-window:keyboard")
 
